@@ -67,11 +67,17 @@ MANIFEST = {
 }
 CONFIGS = {
     "quick": [("valid", 1500), ("mutated", 4500), ("files", 500),
-              ("extended", 300)],
+              ("boundary", 220), ("extended", 300)],
     "thorough": [("valid", 2), ("mutated", 6), ("files", 2),
-                 ("extended", 1)],
+                 ("boundary", 2), ("extended", 1)],
 }
+BOUNDARY_VALUES = ("0", "-1", "1", "+1", "x")
 CHUNK = 40
+# C18 says nothing about running time, and a mutated number can make a
+# formula legitimately huge: a run that exceeds the limit is abandoned and
+# recorded as a note (a genuine hang would show up as a pile of such notes).
+RUN_TIMEOUT_S = 25
+TIMEOUT_IS_VIOLATION = False
 
 HELP_FLAGS = ("-h", "--help", "-V", "--version", "--tutorial",
               "--help-graph", "--help-bipartite", "--help-dag")
@@ -620,6 +626,29 @@ def execute(case, ctx):
                                          bool(touches))
     for m in case["mutations"]:
         ctx.fault("argv:" + m)
+    if case.get("config") == "boundary":
+        # fault enumeration over argv: every numeric token takes every
+        # boundary value in turn (cur+1 is written as "+1")
+        _one(case, ctx, [])
+        stop = argv.index("-T") if "-T" in argv else len(argv)
+        idx = [i for i, a in enumerate(argv[:stop]) if NUM.match(a)][:8]
+        base = dict(case)
+        for i in idx:
+            for val in BOUNDARY_VALUES:
+                v = val
+                if val == "+1":
+                    try:
+                        v = str(int(float(argv[i])) + 1)
+                    except ValueError:
+                        v = "2"
+                if v == argv[i]:
+                    continue
+                c2 = dict(base)
+                c2["argv"] = argv[:i] + [v] + argv[i + 1:]
+                c2["mutations"] = ["boundary"]
+                ctx.fault("argv:boundary")
+                _one(c2, ctx, [])
+        return
     if case["file_faults"] == "all":
         names = [a for a in argv if a in case["files"] and
                  case["files"][a]["kind"] == "file"]
